@@ -240,23 +240,40 @@ func c06Programs(tier string) []*Spec {
 		sp.Main = append(sp.Main, Op{K: "refresh"}, Op{K: "refresh"}, Op{K: "refresh"}, Op{K: "refresh"}, Op{K: "incr", B: 0, N: 1}, Op{K: "incr", B: 1, N: 1}, Op{K: "incr", B: 2, N: 1}, Op{K: "refresh"}, Op{K: "refresh"})
 		out = append(out, sp)
 	}
-	// four and five bars, two immediate changes between two frames, the second one addressed to a bar the first one moved
-	for n := 4; n <= 5; n++ {
-		for vi, pair := range [][4]int64{{0, 9, 1, 8}, {3, -1, 0, 7}, {1, 9, 3, -2}, {0, 9, 0, -1}} {
-			sp := &Spec{Name: fmt.Sprintf("c06-double-change-n%d-%d", n, vi), Refresh: "manual", Q: -1}
-			for i := 0; i < n; i++ {
-				sp.Bars = append(sp.Bars, BarSpec{Total: 1})
-				sp.Main = append(sp.Main, Op{K: "add", B: i})
+	// four bars, two immediate changes between two frames (every ordered pair of bars, both value orders); the heap is
+	// re-arranged by the first change before the second one arrives
+	for i := 0; i < 4; i++ {
+		for j := 0; j < 4; j++ {
+			if i == j {
+				continue
 			}
-			sp.Main = append(sp.Main, Op{K: "refresh"}, Op{K: "refresh"},
-				Op{K: "setprio", B: int(pair[0]), N: pair[1]}, Op{K: "setprio", B: int(pair[2]), N: pair[3]}, Op{K: "refresh"}, Op{K: "refresh"},
-				Op{K: "setprio", B: n - 1, N: -3}, Op{K: "setprio", B: int(pair[0]), N: 2}, Op{K: "refresh"}, Op{K: "refresh"})
-			for i := 0; i < n; i++ {
-				sp.Main = append(sp.Main, Op{K: "incr", B: i, N: 1})
+			for vi, vals := range [][2]int64{{10, 20}, {20, 10}, {-1, 10}} {
+				sp := &Spec{Name: fmt.Sprintf("c06-double-change-%d%d-%d", i, j, vi), Refresh: "manual", Q: -1}
+				for b := 0; b < 4; b++ {
+					sp.Bars = append(sp.Bars, BarSpec{Total: 1})
+					sp.Main = append(sp.Main, Op{K: "add", B: b})
+				}
+				sp.Main = append(sp.Main, Op{K: "refresh"}, Op{K: "refresh"},
+					Op{K: "setprio", B: i, N: vals[0]}, Op{K: "setprio", B: j, N: vals[1]}, Op{K: "refresh"}, Op{K: "refresh"})
+				for b := 0; b < 4; b++ {
+					sp.Main = append(sp.Main, Op{K: "incr", B: b, N: 1})
+				}
+				sp.Main = append(sp.Main, Op{K: "refresh"}, Op{K: "refresh"})
+				out = append(out, sp)
 			}
-			sp.Main = append(sp.Main, Op{K: "refresh"}, Op{K: "refresh"})
-			out = append(out, sp)
 		}
+	}
+	// five bars, one of them added with an explicit priority between two changes
+	{
+		sp := &Spec{Name: "c06-double-change-add", Refresh: "manual", Q: -1}
+		sp.Bars = []BarSpec{{Total: 1}, {Total: 1}, {Total: 1}, {Total: 1}, {Total: 1, HasPrio: true, Prio: 15}}
+		sp.Main = []Op{{K: "add", B: 0}, {K: "add", B: 1}, {K: "add", B: 2}, {K: "add", B: 3}, {K: "refresh"}, {K: "setprio", B: 0, N: 10}, {K: "setprio", B: 2, N: 20}, {K: "refresh"}, {K: "refresh"},
+			{K: "add", B: 4}, {K: "setprio", B: 3, N: 30}, {K: "setprio", B: 0, N: 40}, {K: "refresh"}, {K: "refresh"}}
+		for b := 0; b < 5; b++ {
+			sp.Main = append(sp.Main, Op{K: "incr", B: b, N: 1})
+		}
+		sp.Main = append(sp.Main, Op{K: "refresh"}, Op{K: "refresh"})
+		out = append(out, sp)
 	}
 	// a priority change addressed to a bar that is still queued behind its predecessor touches no displayed bar
 	for _, v := range []int64{-5, 7} {
